@@ -1,4 +1,6 @@
 import Amgcl.Proofs.RelaxSymIlu
+import Amgcl.Proofs.RelaxScaleIlup
+import Amgcl.Proofs.BridgeMat
 import Amgcl.Proofs.BridgeVec
 import Amgcl.Proofs.EnergyBuild
 import Amgcl.Properties.C06
@@ -144,6 +146,33 @@ theorem iluN_transpose (ω : K) (F : IluFactors K) (n : Nat) (hM : (iluM F n)ᵀ
   have h := hbil (Pi.single j 1) (Pi.single i 1)
   rw [mulVec_single_one, mulVec_single_one, single_one_dotProduct, dotProduct_single_one] at h
   simpa [Matrix.col, Matrix.transpose_apply] using h
+
+theorem vecOf_vsmul {n : Nat} (c : K) (v : Vec K) : vecOf n (vsmul c v) = c • vecOf n v := by
+  funext i
+  simp only [vecOf_apply, Pi.smul_apply, smul_eq_mul, getD_vsmul]
+
+/-- **the sweep matrix of the factors of `c·A` is `c⁻¹ ·` the sweep matrix of the factors of `A`** -/
+theorem iluN_scale (c : K) (hc : c ≠ 0) (ω : K) (F : IluFactors K) (n : Nat) (hU : strictUpperb F.U = true)
+    (hUwf : F.U.WF) (hUn : F.U.nrows = F.L.nrows) (hUc : F.U.ncols = F.L.nrows) (hn : F.L.nrows = n) :
+    iluN ω (scaleFactors c F) n = c⁻¹ • iluN ω F n := by
+  have hlin : iluLin (scaleFactors c F) n = c⁻¹ • iluLin F n := by
+    apply LinearMap.ext
+    intro v
+    show vecOf n (iluSolve (scaleFactors c F) (Array.ofFn v)) = c⁻¹ • vecOf n (iluSolve F (Array.ofFn v))
+    rw [iluSolve_scale c hc F hU hUwf hUn hUc _ (by simp [hn]), vecOf_vsmul]
+  unfold iluN
+  rw [hlin, map_smul, smul_comm]
+
+/-- symmetric pattern / values are invariant under `backend::scale` -/
+theorem SymCRS.scale {A : CRS K} (h : SymCRS A) (c : K) : SymCRS (scale A c) := by
+  constructor
+  · intro i j hi hj
+    rw [scale_nrows'] at hi hj
+    rw [scale_row', scale_row', srow_cols, srow_cols]
+    exact h.pat i j hi hj
+  · intro i j hi hj
+    rw [scale_nrows'] at hi hj
+    rw [scale_get', scale_get', h.val i j hi hj]
 
 end ilu
 
